@@ -163,8 +163,26 @@ static uint64_t outcome_hash(void)
     return h;
 }
 
+static uint64_t g_ref_outcome; static TRes g_ref_res[MAXT];
 static uint64_t g_points_total, g_execs;
+static void run_exec_here(const uint8_t* prefix, int nprefix, Exec* x);
+#include <sys/wait.h>
+/* drivers about first use (lazy initialisation, caches) need a fresh process per execution: library statics
+ * cannot be reset, and an execution that inherits the previous one's state would not be a function of its schedule */
 static void run_exec(const uint8_t* prefix, int nprefix, Exec* x)
+{
+    if (!g_drv->fresh_process) { run_exec_here(prefix, nprefix, x); return; }
+    static Exec* shared; static TRes* shres;
+    if (!shared) { shared = mmap(NULL, sizeof(Exec) + sizeof(TRes) * MAXT, PROT_READ | PROT_WRITE, MAP_SHARED | MAP_ANONYMOUS, -1, 0); shres = (TRes*)(shared + 1); }
+    fflush(stdout);
+    pid_t pid = fork();
+    if (pid == 0) { run_exec_here(prefix, nprefix, shared); memcpy(shres, g_res, sizeof(TRes) * MAXT); _exit(0); }
+    int st = 0; waitpid(pid, &st, 0);
+    if (!WIFEXITED(st) || WEXITSTATUS(st) != 0) { memset(x, 0, sizeof *x); x->truncated = 1; x->outcome = 0xDEADull; g_execs++; return; }
+    memcpy(x, shared, sizeof *x); memcpy(g_res, shres, sizeof(TRes) * MAXT);
+    g_points_total += (uint64_t)x->npts; g_execs++;
+}
+static void run_exec_here(const uint8_t* prefix, int nprefix, Exec* x)
 {
     g_mode = MODE_OFF;
     g_drv->setup();
@@ -203,7 +221,7 @@ static void run_exec(const uint8_t* prefix, int nprefix, Exec* x)
     x->outcome = outcome_hash();
 }
 
-static uint64_t g_ref_outcome; static TRes g_ref_res[MAXT];
+
 static uint64_t g_outcomes[64]; static int g_noutcomes;
 static int g_bound;
 static int g_bad_schedules;
@@ -255,7 +273,19 @@ static void explore(const uint8_t* prefix, int nprefix, int di)
     depth--;
 }
 
+static void sequential_reference_here(void);
 static void sequential_reference(void)
+{
+    if (!g_drv->fresh_process) { sequential_reference_here(); return; }
+    static uint64_t* sh;
+    if (!sh) sh = mmap(NULL, 4096 + sizeof(TRes) * MAXT, PROT_READ | PROT_WRITE, MAP_SHARED | MAP_ANONYMOUS, -1, 0);
+    fflush(stdout);
+    pid_t pid = fork();
+    if (pid == 0) { sequential_reference_here(); sh[0] = g_ref_outcome; memcpy(sh + 8, g_ref_res, sizeof(TRes) * MAXT); _exit(0); }
+    int st = 0; waitpid(pid, &st, 0);
+    g_ref_outcome = sh[0]; memcpy(g_ref_res, sh + 8, sizeof(TRes) * MAXT);
+}
+static void sequential_reference_here(void)
 {
     g_mode = MODE_OFF; g_cur = -1;
     g_drv->setup();
@@ -382,8 +412,9 @@ int main(int argc, char** argv)
     ownership_pass();
     for (int di = 1; di < NDRIVERS; di++) {
         if (only >= 0 && di != only) continue;
-        run_driver(di, 2, thorough ? 4 : 3, 1);
-        run_driver(di, 3, thorough ? 3 : 2, 1);
+        int fr = DRIVERS[di].fresh_process;
+        run_driver(di, 2, (thorough ? 4 : 3) - fr, 1);
+        run_driver(di, 3, (thorough ? 3 : 2) - fr, 1);
     }
     sample("driver 'distinct CAN headers': 2 threads x {init; set identifier; set eff; get; get}; every hooked access to non-stack, non-read-only memory is a scheduling point; all schedules with <= 2 preemptions");
     sample("driver 'one read-shared RVF header': all threads read stream_id/avtp_timestamp/line_number/pixel_depth/tu from the same 32 bytes");
